@@ -477,4 +477,19 @@ func TestC19Ws(t *testing.T) {
 		}
 		emit(wsScenario{Acts: acts, Envs: small, Limit: -1, Tag: "random"})
 	}
+
+	// (4) concurrent writers on ONE goatOverWebsocket connection (free-running, outside any bubble): the client
+	// multiplexer writes from one goroutine per call, relying on coder/websocket's Conn.Write being safe for that
+	for _, k := range []int{2, 8} {
+		if want(idx) {
+			em.Marker("begin", idx)
+			p := newTrWsPair(t, -1)
+			wr := goat.NewGoatOverWebsocket(p.cc)
+			rd := goat.NewGoatOverWebsocket(p.sc)
+			emitConc(em, idx, "ws", k, 400, concWriters(k, 400, wr.Write, rd.Read))
+			p.close()
+			em.Marker("end", idx)
+		}
+		idx++
+	}
 }
